@@ -12,11 +12,15 @@ from visions.types.object import Object
 
 def not_excluded_type(array: np.ndarray, excludes) -> bool:
 
-    if len(array) == 0 or not isinstance(array[0], excludes):
+    if len(array) == 0:
         return True
 
-    dtype = type(array[0])
-    return not all_type(array, dtype)
+    # test against the excluded class the first element belongs to, not its exact class:
+    # a subclass instance (e.g. pd.Timestamp among datetimes) must not change the answer
+    for dtype in excludes:
+        if isinstance(array[0], dtype):
+            return not all_type(array, dtype)
+    return True
 
 
 @Object.contains_op.register
